@@ -416,12 +416,13 @@ func runRouting(list []shardJ, filter *compCase, st *compStats, emit func(compVi
 
 // ---- FindMissing ---------------------------------------------------------------------
 
-// presencePatterns: every pattern for universes of <= 6 elements; for the
-// larger mixed universe: nothing, everything, the two alternating patterns,
-// every single element present, every single element absent.
-func presencePatterns(n int) []int {
+// presencePatterns: every pattern for universes of <= 6 elements when full;
+// otherwise (and always for the larger mixed universe): nothing, everything,
+// the two alternating patterns, every single element present, every single
+// element absent.
+func presencePatterns(n int, full bool) []int {
 	var out []int
-	if n <= 6 {
+	if n <= 6 && full {
 		for p := 0; p < 1<<n; p++ {
 			out = append(out, p)
 		}
@@ -437,7 +438,7 @@ func presencePatterns(n int) []int {
 
 type fmOutcome struct{ k, asked, touched, missing int }
 
-func runFindMissing(list []shardJ, universes [][]udig, filter *compCase, st *compStats, emit func(compViol)) {
+func runFindMissing(list []shardJ, universes [][]udig, thorough bool, filter *compCase, st *compStats, emit func(compViol)) {
 	ctx := context.Background()
 	fmOut := map[fmOutcome]struct{}{}
 	for ui, u := range universes {
@@ -469,7 +470,7 @@ func runFindMissing(list []shardJ, universes [][]udig, filter *compCase, st *com
 		}
 		sort.Slice(order, func(a, b int) bool { return dstr[order[a]] < dstr[order[b]] })
 		perShard := make([][]string, len(list))
-		for _, present := range presencePatterns(n) {
+		for _, present := range presencePatterns(n, thorough || ui == 0) {
 			if filter != nil && filter.Present != present {
 				continue
 			}
@@ -882,7 +883,7 @@ func replayComposite(r *ev.Run, c compCase) {
 	case "composite-routing":
 		runRouting(c.Shards, &c, &st, emit)
 	case "composite-findmissing":
-		runFindMissing(c.Shards, fmUniverses(c.USize > 8), &c, &st, emit)
+		runFindMissing(c.Shards, fmUniverses(c.USize > 8), true, &c, &st, emit)
 	case "composite-errors":
 		runErrors(c.Shards, &c, &st, emit)
 	default:
